@@ -1,6 +1,8 @@
 (** C06 — property theorems only.  Each is closed by [exact] of a lemma in Proofs*.v and followed by
     [Print Assumptions]. *)
-From V Require Import Base.Util Gen.C06_tables_gen C06.Model C06.Spec C06.Proofs C06.ProofsMap C06.ProofsWriter C06.ProofsCli C06.Corr C06.ProofsCorr.
+From V Require Import Base.Util Gen.C06_tables_gen C06.Model C06.Spec C06.Proofs C06.ProofsMap C06.ProofsWriter C06.ProofsCli C06.ProofsDefs C06.Corr C06.ProofsCorr.
+From V Require C14.Model.
+From V Require C06.Examples.
 
 Theorem C06_alphabet_decodes :
   forall i, (i < 64)%N -> b64_val (b64_char i) = Some i.
@@ -86,60 +88,6 @@ Theorem C06_filemap_schema :
 Proof. exact filemap_schema. Qed.
 Print Assumptions C06_filemap_schema.
 
-Theorem C06_filemap_this_op :
-  forall fs j p, store_small fs ->
-  nth_error (fs_ops fs) j = Some p ->
-  let i := (fs_schema_len fs + N.of_nat j)%N in
-  fmap_lookup (Some (file_indices fs (Some i))) i = Some (fs_schema_len fs) /\
-  nth_error (sources_of fs (Some i)) (N.to_nat (fs_schema_len fs)) = Some p.
-Proof. exact filemap_this_op. Qed.
-Print Assumptions C06_filemap_this_op.
-
-Theorem C06_filemap_other_op :
-  forall fs op j p,
-  nth_error (fs_ops fs) j = Some p ->
-  op <> Some (fs_schema_len fs + N.of_nat j)%N ->
-  fmap_lookup (Some (file_indices fs op)) (fs_schema_len fs + N.of_nat j)%N = Some USIZE_MAX.
-Proof. exact filemap_other_op. Qed.
-Print Assumptions C06_filemap_other_op.
-
-Theorem C06_sources_in_range_partial :
-  forall fs op os st,
-  store_small fs -> ops_mapped fs op os = true ->
-  sw_run (Some (file_indices fs op)) os = Some st ->
-  exists es,
-    decode_mappings (mbuf (sw_map st)) = Some (map seg_of_entry es) /\
-    Forall (fun e =>
-      isize_of (e_fi e) = Z.of_N (e_fi e) /\
-      exists c p name path kind,
-        In (WF c p name) os /\ e_ol e = p_line p /\ fs_get fs (p_file p) = Some (path, kind) /\
-        nth_error (sources_of fs op) (N.to_nat (e_fi e)) = Some path) es.
-Proof. exact sources_in_range_partial_lemma. Qed.
-Print Assumptions C06_sources_in_range_partial.
-
-Theorem C06_sources_in_range_full_refuted :
-  ~ sources_in_range_full.
-Proof. exact sources_in_range_full_refuted. Qed.
-Print Assumptions C06_sources_in_range_full_refuted.
-
-Theorem C06_imported_fragment_source_index_refuted :
-  exists st gs g,
-    sw_run (Some (file_indices wit_store (Some 1%N))) wit_ops = Some st /\
-    decode_mappings (mbuf (sw_map st)) = Some gs /\ In g gs /\
-    g_orig g = Some ((-1)%Z, 0%Z, 9%Z, Some 0%Z) /\
-    sources_of wit_store (Some 1%N) = [s "/p/schema.graphql"; s "/p/main.graphql"].
-Proof. exact imported_fragment_source_index_refuted_lemma. Qed.
-Print Assumptions C06_imported_fragment_source_index_refuted.
-
-Theorem C06_unmapped_file_index_refuted :
-  exists st gs,
-    sw_run (Some [0%N; USIZE_MAX]) [WF (s "F") (mkpos 0 9 1 false) (Some (s "F"))] = Some st /\
-    mbuf (sw_map st) = s ",ADASA,CAAC" /\
-    decode_mappings (mbuf (sw_map st)) = Some gs /\
-    map g_orig gs = [Some ((-1)%Z, 0%Z, 9%Z, Some 0%Z); Some ((-1)%Z, 0%Z, 10%Z, None)].
-Proof. exact unmapped_file_index_refuted_lemma. Qed.
-Print Assumptions C06_unmapped_file_index_refuted.
-
 Theorem C06_orig_column_units_refuted :
   exists tok, In tok (token_starts astral_line) /\ t_line tok = 0%N /\ t_colc tok = 11%N /\ t_col16 tok = 12%N.
 Proof. exact orig_column_units_refuted_lemma. Qed.
@@ -154,4 +102,84 @@ Theorem C06_model_holds_map :
   forall es m, add_entries m0 es = Some m -> holds (CMap es (Some (mbuf m))) = true.
 Proof. exact holds_map_lemma. Qed.
 Print Assumptions C06_model_holds_map.
+
+Theorem C06_filemap_contributing :
+  forall fs op j p, store_small fs ->
+  nth_error (fs_ops fs) j = Some p ->
+  contributes op (fs_schema_len fs + N.of_nat j)%N = true ->
+  exists k, fmap_lookup (Some (file_indices fs op)) (fs_schema_len fs + N.of_nat j)%N = Some k /\
+            nth_error (sources_of fs op) (N.to_nat k) = Some p /\ (k < 2 ^ 63)%N.
+Proof. exact filemap_contributing. Qed.
+Print Assumptions C06_filemap_contributing.
+
+Theorem C06_filemap_other_op :
+  forall fs op j p, store_small fs ->
+  nth_error (fs_ops fs) j = Some p ->
+  contributes op (fs_schema_len fs + N.of_nat j)%N = false ->
+  fmap_lookup (Some (file_indices fs op)) (fs_schema_len fs + N.of_nat j)%N = Some USIZE_MAX.
+Proof. exact filemap_other_op. Qed.
+Print Assumptions C06_filemap_other_op.
+
+Theorem C06_sources_in_range :
+  forall fs op os st,
+  store_small fs -> ops_mapped fs op os = true ->
+  sw_run (Some (file_indices fs op)) os = Some st ->
+  exists es,
+    decode_mappings (mbuf (sw_map st)) = Some (map seg_of_entry es) /\
+    Forall (fun e =>
+      isize_of (e_fi e) = Z.of_N (e_fi e) /\
+      exists c p name path kind,
+        In (WF c p name) os /\ e_ol e = p_line p /\ fs_get fs (p_file p) = Some (path, kind) /\
+        nth_error (sources_of fs op) (N.to_nat (e_fi e)) = Some path) es.
+Proof. exact sources_in_range_lemma. Qed.
+Print Assumptions C06_sources_in_range.
+
+Theorem C06_imported_fragment_mapped :
+  exists st gs g,
+    sw_run (Some (file_indices wit_store (Some (1, [1; 2])%N))) wit_ops = Some st /\
+    decode_mappings (mbuf (sw_map st)) = Some gs /\ In g gs /\
+    g_orig g = Some (2%Z, 0%Z, 9%Z, Some 0%Z) /\
+    sources_of wit_store (Some (1, [1; 2])%N) = [s "/p/schema.graphql"; s "/p/main.graphql"; s "/p/y.graphql"] /\
+    ops_mapped wit_store (Some (1, [1; 2])%N) wit_ops = true.
+Proof. exact imported_fragment_mapped_lemma. Qed.
+Print Assumptions C06_imported_fragment_mapped.
+
+Theorem C06_sources_in_range_guard_needed :
+  exists st gs,
+    sw_run (Some [0%N; USIZE_MAX]) [WF (s "F") (mkpos 0 9 1 false) (Some (s "F"))] = Some st /\
+    mbuf (sw_map st) = s ",ADASA,CAAC" /\
+    decode_mappings (mbuf (sw_map st)) = Some gs /\
+    map g_orig gs = [Some ((-1)%Z, 0%Z, 9%Z, Some 0%Z); Some ((-1)%Z, 0%Z, 10%Z, None)].
+Proof. exact unmapped_file_index_lemma. Qed.
+Print Assumptions C06_sources_in_range_guard_needed.
+
+Theorem C06_named_write_for_mapped :
+  forall fmap os st chunk p nm,
+  sw_run fmap os = Some st -> In (WF chunk p (Some nm)) os -> p_builtin p = false ->
+  exists es e pre post k,
+    decode_mappings (mbuf (sw_map st)) = Some (map seg_of_entry es) /\ In e es /\
+    c_buf (sw_cur st) = pre ++ post /\ end_pos pre = epos e /\ is_prefix (hd [] (split_on LF chunk)) post = true /\
+    e_ol e = p_line p /\ e_oc e = p_col p /\ e_ni e = Some k /\
+    nth_error (nm_all (sw_names st)) (N.to_nat k) = Some nm /\
+    fmap_lookup fmap (p_file p) = Some (e_fi e).
+Proof. exact named_write_for_mapped_lemma. Qed.
+Print Assumptions C06_named_write_for_mapped.
+
+Theorem C06_operation_definitions_are_mapped :
+  forall fmap t d B st,
+  sw_run fmap (map conv_wop (C14.Model.dts_ops t d B)) = Some st ->
+  (forall i k n np p sel b,
+     nth_error (C14.Model.defs d) i = Some (C14.Model.OpDef k (Some (n, np)) p sel) -> nth_error B i = Some b ->
+     C14.Model.pbuiltin np = false ->
+     let o := C14.Model.t_base t in
+     mapped_in fmap st (C14.Model.operation_name o (Some (n, np)) ++ C14.Model.operation_result_type_suffix t) (conv_pos np) n /\
+     mapped_in fmap st (C14.Model.operation_name o (Some (n, np)) ++ C14.Model.variables_type_suffix t) (conv_pos np) n /\
+     mapped_in fmap st (C14.Model.operation_var o k (Some (n, np))) (conv_pos np) n) /\
+  (forall i name p b,
+     nth_error (C14.Model.defs d) i = Some (C14.Model.FragDef name p) -> nth_error B i = Some b ->
+     C14.Model.pbuiltin p = false ->
+     mapped_in fmap st (name ++ C14.Model.fragment_type_suffix t) (conv_pos p) name /\
+     mapped_in fmap st (C14.Model.fragment_var (C14.Model.t_base t) name) (conv_pos p) name).
+Proof. exact operation_definitions_are_mapped_lemma. Qed.
+Print Assumptions C06_operation_definitions_are_mapped.
 
